@@ -414,6 +414,20 @@ def run_case(js):
                 fail(f'reject-not-atomic@{idx}')
             if label is not None and label[0] == 'v':
                 fail(f'valid-value-rejected@{idx}:{r}')
+            if label is not None and label[0] == 'a' and code == 'ADD':
+                # a valid object may only be refused for an exclusivity conflict with the current set
+                # (or because the set would exceed the size bound)
+                sd0 = sdesc.get(name)
+                old0 = before[name].value if name in before else sp[name].default
+                try:
+                    cand = ctypes.CompositeConfigType.from_pyvalue(
+                        dec_val(payload, tsp), tspec=tsp[sd0['t'][1]], spec=sp)
+                    conflict = any(obj_conflicts(sites, cand, x) for x in old0)
+                    if not ((r == 'ConstraintViolationError' and conflict)
+                            or (r == 'ConfigurationError' and len(old0) >= 128)):
+                        fail(f'valid-object-rejected@{idx}:{r}')
+                except Exception as e2:
+                    fail(f'valid-object-rejected@{idx}:{r}/{ename(e2)}')
         else:
             if label is not None and label[0] == 'x':
                 fail(f'invalid-value-accepted@{idx}')
@@ -473,6 +487,16 @@ def run_case(js):
                             fail(f'remove-not-subset@{idx}')
                         if len(old) - len(new) > 1:
                             fail(f'remove-too-many@{idx}')
+                        try:
+                            cand = ctypes.CompositeConfigType.from_pyvalue(
+                                dec_val(payload, tsp), tspec=tsp[sd['t'][1]], spec=sp, allow_missing=True)
+                            if cand is not None:
+                                if any(x == cand for x in new):
+                                    fail(f'remove-left-equal-element@{idx}')
+                                if any((x not in new) and not (x == cand) for x in old):
+                                    fail(f'remove-took-unequal-element@{idx}')
+                        except Exception as e2:
+                            fail(f'remove-candidate@{idx}:{ename(e2)}')
         for s_, m_ in others.items():
             if maps[s_] is not m_:
                 fail(f'other-scope-touched@{idx}')
@@ -522,15 +546,32 @@ def run_case(js):
             R.append('!' + ename(e))
             fail(f'json-roundtrip-raised:{sname}:{ename(e)}')
         if not NOQL and js.get('ql', True):
-            st, detail = edgeql_roundtrip(sp, tsp, m)
-            if st != 'ok':
-                fail(f'edgeql-roundtrip:{sname}:{st}')
-                info.append(detail)
-                if os.environ.get('C19_DEBUG'):
-                    sys.stderr.write(f'DEBUG {sname} {st} :: {detail}\n')
+            mm = m
+            for attempt in (0, 1):
+                st, detail = edgeql_roundtrip(sp, tsp, mm)
+                if st != 'ok':
+                    fail(f'edgeql-roundtrip:{sname}:{st}')
+                    info.append(detail)
+                    if os.environ.get('C19_DEBUG'):
+                        sys.stderr.write(f'DEBUG {sname} {st} :: {detail}\n')
+                if st == 'raise:to_edgeql:ValueError' and 'ConfigMemory' in detail and attempt == 0:
+                    # the whole map is unprintable because of a memory value: check the rest of it
+                    mm = immutables.Map({k: x for k, x in m.items() if not _has_memory(x.value)})
+                    continue
+                break
     line = ('O:' + ','.join(res) + ' S:' + pstorage(S) + ' D:' + pstorage(D) + ' I:' + pstorage(I)
             + ' L:' + ';'.join(look) + ' J:' + ' | '.join(J) + ' R:' + ' | '.join(R))
     return line + ''.join(' ##' + b.replace(' ', '_') for b in bad)
+
+
+def _has_memory(v):
+    if isinstance(v, statypes.ConfigMemory):
+        return True
+    if isinstance(v, (frozenset, list, tuple)):
+        return any(_has_memory(x) for x in v)
+    if isinstance(v, ctypes.CompositeConfigType):
+        return any(_has_memory(getattr(v, f, None)) for f in v._tspec.fields)
+    return False
 
 
 def _json_safe(sdesc, name, value):
